@@ -57,6 +57,15 @@ def inject_cond(g, spec):
     if toks[0].lower() in ("value", "key", "index"):
         out.append(("unknown datum kind", {".".join(["valu"] + toks[1:]): v}))
         out.append(("unknown callable", {".".join(toks[:-1] + ["no_such_callable"]): v}))
+        # names that only LOOK like known ones (non-ASCII letters that caseless folding would map onto ASCII): unknown
+        look = g.r.choice([("le\u00df_than", "less_than"), ("key\u017f_contain", "keys_contain"), ("\ufb01rst", "first"), ("i\u017f_instance", "is_instance"),
+                           ("fal\u017fy", "falsy"), ("in_\u017fet", "in_set")])
+        out.append(("look-alike callable", {".".join(toks[:-1] + [look[0]]): v}))
+        out.append(("look-alike datum kind", {".".join(["\u017fvalue"[1:] if False else "valu\u00e9"] + toks[1:]): v}))
+        if len(toks) == 3 and toks[1].lower() in ("dtype", "type"):
+            out.append(("look-alike type name", {k: g.r.choice(["\u017ftr", "li\u017ft", "\ufb02oat", "li\ufb06"])}))
+        if toks[-1].lower() in ("is_instance", "keys_is_instance"):
+            out.append(("look-alike type name", {k: ["int", g.r.choice(["\u017ftr", "li\u017ft", "\ufb02oat"])]}))
         if len(toks) == 3:
             out.append(("unknown pre-processor", {".".join([toks[0], "size", toks[2]]): v}))
             if toks[1].lower() in ("dtype", "type"):
@@ -113,7 +122,8 @@ def inject_path(g, spec):
         (k, v), = spec.items()
         # an unknown suffix: not a method name, and not an internal name either (enum members, attributes, dunder names)
         bad = g.r.choice(["middle", "none", "NONE", "None", "datum", "multi", "value", "simplify", "parts", "get_data", "keys",
-                          "__class__", "copy", "is_concrete", "datum_type", "multi_type", "container", "0", "", " first"])
+                          "__class__", "copy", "is_concrete", "datum_type", "multi_type", "container", "0", "", " first",
+                          "\ufb01rst", "la\ufb06", "\u017fingle", "len\u0261th", "FIR\u017fT"])     # caseless look-alikes (casefold would fold them)
         out.append(("unknown suffix", {k + "." + bad: v} if k.count(".") < 2 else {"path." + bad: v}))
         out.append(("unknown suffix", {"path." + bad + ".first": v}))
         out.append(("several keys", dict(spec, other=[1])))
